@@ -109,7 +109,7 @@ func checkPolicy(t *testing.T, c PolicyCase) (v harness.Verdict) {
 
 // Policy is the verifier-construction clause of C05.
 var Policy = harness.Define(harness.Opts{
-	Name: "policy",
-	Rule: "ct.NewSignatureVerifier over pool keys of every kind, fabricated RSA moduli of 512..8192 bits around the 2048 boundary, P-256 given as generic CurveParams, and undefined key types (nil, Ed25519, DSA, ECDH, value-type structs, []byte, string) x opt-in flag (global reset per case): succeeds iff (RSA >= 2048 bits or ECDSA P-256) or (RSA / ECDSA and opt-in). Every case is non-trivial",
+	Name:  "policy",
+	Rule:  "ct.NewSignatureVerifier over pool keys of every kind, fabricated RSA moduli of 512..8192 bits around the 2048 boundary, P-256 given as generic CurveParams, and undefined key types (nil, Ed25519, DSA, ECDH, value-type structs, []byte, string) x opt-in flag (global reset per case): succeeds iff (RSA >= 2048 bits or ECDSA P-256) or (RSA / ECDSA and opt-in). Every case is non-trivial",
 	Quick: 1000, Thorough: 4000,
 }, genPolicy, checkPolicy)
